@@ -17,6 +17,9 @@ ROUND_TRIP_TOKENS = {
     "LocalDate": ["yyyy", "uuuu", "u", "M", "MM", "MMM", "MMMM", "d", "dd", "ddd", "dddd", "g", "gg", "c", "/", "-", " ", "'of'", ",", "\\d"],
     "AnnualDate": ["M", "MM", "MMM", "MMMM", "d", "dd", "/", "-", " ", "'of'"],
 }
+ROUND_TRIP_TOKENS["Duration"] = ["D", "DD", "H", "HH", "h", "hh", "M", "MM", "m", "mm", "S", "SS", "s", "ss", "+", "-", ":", ".", " ", "'d'",
+                                 "fff", "fffffffff", "FFF", "FFFFFFFFF", ".fff", ".FFF", ".FFFFFFFFF"]
+ROUND_TRIP_TOKENS["Instant"] = ["uuuu", "yyyy", "MM", "M", "dd", "d", "HH", "H", "mm", "m", "ss", "s", "fff", "FFFFFFFFF", ";FFF", ".fff", "'T'", "'Z'", ":", "-", "/", " "]
 ROUND_TRIP_TOKENS["LocalDateTime"] = sorted(set(ROUND_TRIP_TOKENS["LocalDate"] + ROUND_TRIP_TOKENS["LocalTime"] + ["'T'"]))
 BUILTIN = {
     "LocalDate": ["iso", "full_roundtrip"],
@@ -46,7 +49,24 @@ def fields(typ, v) -> dict:
         return {"t3": proj.t3_duration(v)}
     if typ == "Instant":
         return {"t3": proj.t3_instant(v)}
+    if typ == "DurationParts":
+        ns = abs(v.to_nanoseconds())
+        secs = ns // 10**9
+        return {"neg": v.to_nanoseconds() < 0, "days": min(secs // 86400, 2 * 10**9), "h": (secs % 86400) // 3600, "mi": (secs % 3600) // 60, "s": secs % 60, "n": ns % 10**9}
+    if typ == "InstantParts":
+        u = v.in_utc()
+        return {**fields("LocalDate", u.date), **fields("LocalTime", u.time_of_day)}
     raise ValueError(typ)
+
+
+def culture_seps(culture) -> tuple:
+    from pyoda_time.globalization._pyoda_format_info import _PyodaFormatInfo
+
+    try:
+        fi = _PyodaFormatInfo.invariant_info if culture is None else _PyodaFormatInfo._get_format_info(culture)
+        return cps(fi.time_separator), cps(fi.date_separator)
+    except Exception:  # noqa: BLE001
+        return cps(":"), cps("/")
 
 
 def culture_flags(culture) -> tuple:
@@ -70,6 +90,11 @@ def culture_flags(culture) -> tuple:
             # a name that is a prefix of another makes the longest-match parse ambiguous
             if any(a != b and b.startswith(a) for a in low for b in low):
                 ok = False
+        # genitive and plain forms are both tried when parsing: across the two tables no name may be a proper prefix of another
+        for plain, gen in ((names[0], names[2]), (names[1], names[3])):
+            allf = [x.lower() for x in plain + gen if x]
+            if any(a2 != b2 and b2.startswith(a2) for a2 in allf for b2 in allf):
+                ok = False
         return ampm, ok
     except Exception:  # noqa: BLE001
         return False, False
@@ -83,12 +108,14 @@ def gen(args) -> list:
     cals = [CalendarSystem.for_id(c) for c in CalendarSystem.ids]
     cults = [None, None, None] + textgen.cultures(rnd, 5)
     flags = {id(c): culture_flags(c) for c in cults}
+    seps = {id(c): culture_seps(c) for c in cults}
     evs = []
     for _ in range(npat):
         typ = rnd.choice(TYPES)
         culture = rnd.choice(cults)
         ampm_ok, text_ok = flags[id(culture)]
-        builtin = rnd.random() < 0.25 or typ in ("Duration", "Instant")
+        tsep, dsep = seps[id(culture)]
+        builtin = rnd.random() < 0.25
         tokens = []
         try:
             if builtin:
@@ -119,7 +146,16 @@ def gen(args) -> list:
                 v = v.with_calendar(CalendarSystem.iso) if v.calendar.id not in ("ISO", "Gregorian") else v
             p = pat
             ev = {"op": "rt", "type": typ, "pattern": pname, "tokens": tokens, "culture": culture.name if culture is not None else "",
-                  "roundtrip_builtin": builtin, "ampm_ok": ampm_ok, "text_ok": text_ok, "value": fields(typ, v)}
+                  "roundtrip_builtin": builtin, "ampm_ok": ampm_ok, "text_ok": text_ok, "value": fields(typ, v),
+                  "time_sep": tsep if not builtin else cps(":"), "date_sep": dsep if not builtin else cps("/")}
+            if typ == "Duration":
+                ev["parts"] = fields("DurationParts", v)
+            if typ == "Instant":
+                ev["parts"] = fields("InstantParts", v)
+                try:
+                    ev["template"] = fields("LocalDate", pat.template_value.in_utc().date)
+                except Exception:  # noqa: BLE001
+                    ev["template"] = {"y": 2000, "m": 1, "d": 1, "era": "CE", "cal": "ISO"}
             try:
                 if typ in ("LocalDate", "LocalDateTime") and not builtin:
                     p = pat.with_calendar(v.calendar)      # the template value moves to the value's calendar
@@ -179,6 +215,8 @@ def run(ctx: Ctx):
         if "exc" in ev:
             k["exc"] = ev["exc"]
         if ev["type"] == "Offset" and ev.get("parsed", {}).get("sec") == 0 and 45 in ev.get("text", []):
+            k["negative_zero_text"] = True
+        if ev["type"] == "Duration" and ev.get("parsed", {}).get("t3") == [0, 0, 0] and 45 in ev.get("text", []):
             k["negative_zero_text"] = True
         return k
 
